@@ -11,6 +11,7 @@ import KrillModel.Ca.ObjLemmas
 import KrillModel.Ca.ObjLemmasSync
 import KrillModel.Sys.RpLemmas
 import KrillModel.Ca.ClassLemmas
+import KrillModel.Sys.TreeLemmas
 namespace KM.Props.C01
 open KM.Ca.Pub KM.Sys.Rp
 
@@ -194,5 +195,50 @@ example :
       else if h = 902 then some (.signed ⟨1, 77, 9000, .roa [p]⟩) else none
     PointValid cat files ca 1000 = true ∧ pointVrps cat files ca = [p] := by
   decide
+
+/-! ### The hierarchy, composed (any depth, any branching)
+
+`Sys/Tree.lean`: a hierarchy is a rose tree of `Node`s (certificate, files of the publication
+point, configuration, children); `tree.repo` is the server content a relying party sees,
+`tree.expectedVrps` / `expectedAspas` / `expectedRouterKeys` the specification
+`⋃ configured(ca) ∩ covered-by-current-cert(ca)`.  `NodeOk cat now n` is the *local* condition on
+one node, exactly what the one-level results give (point valid; payloads of the point = the
+configured-and-covered ones; CA certificates found at the point = the children's certificates).
+The theorems below lift the local condition to the relying party's top-down walk. -/
+
+/-- If every node is locally fine and publication-point keys are pairwise distinct, the top-down
+validation from the trust anchor succeeds (given fuel for the depth of the hierarchy). -/
+theorem tree_valid (cat : Catalog) (now : Nat) (tree : Node) (fuel : Nat)
+    (hok : ∀ n ∈ tree.nodes, NodeOk cat now n) (hd : tree.subjects.Nodup) (hfuel : tree.depth ≤ fuel) :
+    TreeValid cat tree.repo now fuel tree.ca = true :=
+  (treeValid_iff_aux cat now tree hd (fun n hn => (hok n hn).childrenExact) fuel tree
+    (Node.mem_nodes_self tree) hfuel).mpr (fun m hm => (hok m hm).valid)
+
+/-- Sharp form: when the child certificates found are exactly the children's, the walk succeeds
+*iff* every publication point of the hierarchy validates. -/
+theorem tree_valid_iff (cat : Catalog) (now : Nat) (tree : Node) (fuel : Nat)
+    (hch : ∀ n ∈ tree.nodes, ChildrenExact cat n) (hd : tree.subjects.Nodup) (hfuel : tree.depth ≤ fuel) :
+    TreeValid cat tree.repo now fuel tree.ca = true ↔
+      ∀ n ∈ tree.nodes, PointValid cat n.files n.ca now = true :=
+  treeValid_iff_aux cat now tree hd hch fuel tree (Node.mem_nodes_self tree) hfuel
+
+/-- Converse direction (`TreeValid` is not trivially true): one publication point anywhere in the
+hierarchy that does not validate – stale manifest or CRL, a listed-but-missing or
+present-but-unlisted file, an unacceptable object – makes the walk from the trust anchor fail,
+for every fuel, as soon as the certificates of the children are found at their parents' points. -/
+theorem tree_invalid (cat : Catalog) (now : Nat) (tree : Node) (fuel : Nat) (hd : tree.subjects.Nodup)
+    (hfound : ∀ n ∈ tree.nodes, ∀ ch ∈ n.children, ch.ca ∈ childCerts cat n.files n.ca)
+    (bad : Node) (hmem : bad ∈ tree.nodes) (hbad : PointValid cat bad.files bad.ca now = false) :
+    TreeValid cat tree.repo now fuel tree.ca = false :=
+  treeValid_false_aux cat now tree hd hfound bad hbad fuel tree (Node.mem_nodes_self tree) hmem
+
+/-- The route-origin payloads the walk collects are exactly (as a set) the configured
+authorisations covered by the configuring CA's current certificate, united over the hierarchy. -/
+theorem tree_vrps_exact (cat : Catalog) (now : Nat) (tree : Node) (fuel : Nat)
+    (hok : ∀ n ∈ tree.nodes, NodeOk cat now n) (hd : tree.subjects.Nodup) (hfuel : tree.depth ≤ fuel) :
+    sameMembers (treeVrps cat tree.repo fuel tree.ca) tree.expectedVrps = true := by
+  rw [sameMembers_iff, treeVrps_eq_walk]
+  exact walk_exact (pointVrps cat) Node.ownVrps cat tree hd (fun n hn => (hok n hn).childrenExact)
+    (fun n hn => sameMembers_iff.mp (hok n hn).vrps) fuel tree (Node.mem_nodes_self tree) hfuel
 
 end KM.Props.C01
